@@ -89,8 +89,10 @@ func LogClose(closer io.Closer) error {
 func PipeData(down io.ReadWriteCloser, up io.ReadWriteCloser) error {
 	log.Debugf("Piping data %v <-> %v", down, up)
 
-	downPipe := make(chan error, 0)
-	upPipe := make(chan error, 0)
+	// Both copy loops report exactly once; the channels are buffered so that the loop which finishes
+	// second can always deliver its report and terminate, whether or not anybody is still listening.
+	downPipe := make(chan error, 1)
+	upPipe := make(chan error, 1)
 
 	if os.Getenv("SOCKETACE_PIPE_DEBUG") == "1" {
 		go pipeDebugData(downPipe, down, up)
@@ -101,23 +103,22 @@ func PipeData(down io.ReadWriteCloser, up io.ReadWriteCloser) error {
 		go pipeData(upPipe, up, down)
 	}
 
+	// The direction which ended has been copied completely by now. Close both ends: the opposite one so
+	// that the end-of-stream propagates, and the one which ended so that its resources are released and
+	// the second copy loop is not left blocked on it.
+	var err error
 	select {
-	case err := <-downPipe:
-		log.Debugf("Closing piped upstream connection due to '%v': %+v", err, up)
+	case err = <-downPipe:
+		log.Debugf("Closing piped connections, downstream finished with '%v': %+v <-> %+v", err, down, up)
 		TryClose(up)
-		if err != io.EOF {
-			log.Debugf("Closing piped downstream connection: %+v", down)
-			TryClose(down)
-			return err
-		}
-	case err := <-upPipe:
-		log.Debugf("Closing piped downstream connection due to '%v': %+v", err, down)
 		TryClose(down)
-		if err != io.EOF {
-			log.Debugf("Closing piped upstream connection: %+v", up)
-			TryClose(up)
-			return err
-		}
+	case err = <-upPipe:
+		log.Debugf("Closing piped connections, upstream finished with '%v': %+v <-> %+v", err, down, up)
+		TryClose(down)
+		TryClose(up)
+	}
+	if err != io.EOF {
+		return err
 	}
 	return nil
 }
